@@ -63,7 +63,7 @@ def escapeChar (c : Char) : Str :=
   else if c == Char.ofNat 12 then ['\\', 'f']
   else
     let n := c.toNat
-    if n < 32 || (127 < n && n < 65536) then uEscape n
+    if n < 32 || (126 < n && n < 65536) then uEscape n      -- everything outside ' ' … '~' (DEL included)
     else if n ≥ 65536 then
       let m := n - 65536
       uEscape (55296 + m / 1024) ++ uEscape (56320 + m % 1024)
@@ -181,6 +181,10 @@ def parseVal : Nat → Str → Option (JV × Str)
     | 'n' :: 'u' :: 'l' :: 'l' :: r => some (.null, r)
     | 't' :: 'r' :: 'u' :: 'e' :: r => some (.bool true, r)
     | 'f' :: 'a' :: 'l' :: 's' :: 'e' :: r => some (.bool false, r)
+    -- the three non-finite tokens CPython's scanner accepts (`json.dumps(float('inf'))` writes them)
+    | 'I' :: 'n' :: 'f' :: 'i' :: 'n' :: 'i' :: 't' :: 'y' :: r => some (.flt "Infinity".toList, r)
+    | '-' :: 'I' :: 'n' :: 'f' :: 'i' :: 'n' :: 'i' :: 't' :: 'y' :: r => some (.flt "-Infinity".toList, r)
+    | 'N' :: 'a' :: 'N' :: r => some (.flt "NaN".toList, r)
     | '"' :: r => (parseStrBody (r.length + 1) r).map fun p => (.str p.1, p.2)
     | '[' :: r =>
       match skipWs r with
